@@ -709,6 +709,12 @@ func normalize(m protoreflect.Message, depth int) {
 			child := m.Mutable(fd).Message()
 			if fd.Message().FullName() == tsFull {
 				truncTimestamp(child, TimestampFormat(fd))
+				// a Timestamp is a message too: its empty value is dropped or nulled like any other child's
+				if eb := EmptyBehavior(fd); eb == sebufhttp.EmptyBehavior_EMPTY_BEHAVIOR_OMIT {
+					if proto.Size(child.Interface()) == 0 {
+						m.Clear(fd)
+					}
+				}
 				continue
 			}
 			normalize(child, depth+1)
